@@ -292,11 +292,20 @@ func genFiles(sc scenario, backend storage.Backend) (map[int64]*rowInfo, error) 
 	ctx := context.Background()
 	for i := 1; i <= sc.NFiles; i++ {
 		n := 1 + rng.Intn(4)
-		withTagsMeta := sc.Dedup == "tags" || (sc.Dedup == "mixed" && (i%2 == 1))
+		withTagsMeta := sc.Dedup == "tags" || sc.Dedup == "tags_evolve" || (sc.Dedup == "mixed" && (i%2 == 1))
 		hasHost := sc.Dedup != "dedup_time"
 		hasRegion := hasHost && rng.Intn(2) == 0
 		if sc.Dedup == "mixed" {
 			hasRegion = mixedRegion
+		}
+		// directed recipe (open finding 3): the first two files declare the extra tag "region" and file 1 holds two
+		// rows that differ only in it; the remaining files have no such column and declare only "host"
+		evolve := sc.Dedup == "tags_evolve"
+		if evolve {
+			hasRegion = i <= 2
+			if i == 1 && n < 2 {
+				n = 2
+			}
 		}
 		cols := map[string]interface{}{}
 		validity := map[string][]bool{}
@@ -315,6 +324,11 @@ func genFiles(sc scenario, backend storage.Backend) (map[int64]*rowInfo, error) 
 				hostc[r] = ""
 			}
 			regc[r] = regions[rng.Intn(len(regions))]
+		}
+		if evolve && i == 1 {
+			tcol[1] = tcol[0]
+			hostc[0], hostc[1], hostv[0], hostv[1] = "a", "a", true, true
+			regc[0], regc[1] = "eu", "us"
 		}
 		// the writer expects time-sorted input like the ingest buffer produces; order is irrelevant to the property
 		cols["time"] = tcol
